@@ -224,6 +224,17 @@ CLAIMED.update({
                   "layers, callable annotation values, > 3 layers / > 3 blocks per index, minimality of culling.", design_ref="DESIGN.md sec. 3 C10"),
 })
 
+CLAIMED.update({
+ "C21": dict(text="setitem_array / parse_assignment_indices are driven with a duck-typed array whose chunk sizes are symbolic and a recording value stand-in of symbolic "
+                  "shape; indices are ints and slices with symbolic start/stop (or None) and steps in {None, +-1, +-2, +-3}, 1-d and 2-d, values scalar / full / "
+                  "size-1 axes / extra leading axis. For a symbolic probe position z3 decides: the block holding it is assigned iff NumPy assigns the probe, the "
+                  "value element it receives is NumPy's (reversed order for negative steps), the value piece broadcasts to the block's local selection, untouched "
+                  "blocks pass through, one output key per input block (chunks unchanged). Lists, integer arrays, masks and dask masks are covered by "
+                  "solver-enumerated witnesses through x[idx] = v against NumPy. Empty selections with a value axis > 1 are the listed known finding.",
+             note=_ENUM_NOTE + "slice.indices rewritten to the PySlice_AdjustIndices transcription inside normalize_slice / parse_assignment_indices / setitem_array; "
+                  "int/math/np shims as in C20. Outside: None/Ellipsis in the index, duplicate positions, NaN chunks, ndim > 2.", design_ref="DESIGN.md sec. 3 C21"),
+})
+
 NOT_APPLICABLE = {}
 
 _NA_DESIGN = {
